@@ -487,6 +487,12 @@ fn tail(s: &str) -> String {
 
 fn panic_site(stderr: &str) -> String {
     for l in stderr.lines() {
+        // the child's panic hook prints "[site=file#function]" (stable under line shifts)
+        if let (Some(a), true) = (l.find("[site="), l.contains(" at /repo/")) {
+            let rest = &l[a + 6..];
+            let end = rest.rfind(']').unwrap_or(rest.len());
+            return rest[..end].to_string();
+        }
         if let Some(pos) = l.find(" at /repo/") {
             let rest = &l[pos + 10..];
             let end = rest.find(": ").unwrap_or(rest.len());
